@@ -14,3 +14,11 @@ impl<T> Vec<T> {
 /// `core::mem::size_of` in a const, so the unit skips that one constant ("skip_consts") and takes the value from
 /// here. The Kani harness `consts_as_modelled` (kani/consec) checks the value on the verbatim source text.
 pub const IDS_IN_ITEM: usize = 32;
+
+/// `Base::compose_uri_for_token` (base URI ++ decimal token id; string formatting over byte slices) is outside the
+/// unit: declared opaque with NO contract, so `Consecutive::token_uri` is verified only for *when it returns*
+/// (the token exists), not for the text it returns. `Base` is declared by the unit ("extra_items").
+impl Base {
+    #[verifier::external_body]
+    pub fn compose_uri_for_token(e: &Env, base_uri: String, token_id: u32) -> (r: String) { unimplemented!() }
+}
